@@ -91,14 +91,17 @@ CLAIMS = {
              "American >= European binary and exactly one once reached, continuity at the branch) is enumerated over the lattice and evaluated on pfhedge.nn.functional in float64. Inequalities are decided on the lattice only.",
         note="Trusted: TLC, torch. The machine cannot evaluate erf/exp: relations between lattice points are decided by evaluating the code, not by the model; nothing is claimed between lattice points."),
     "C10": dict(
-        engine="Sim.tla / TLC -> path-wise replay with supplied normals",
-        technique="TLA+ scheme machines (one Step(z) per time step, exact coefficient/rational domains) checked by TLC against closed forms for every sequence of supplied normals; real generators replayed on exactly those normals",
+        engine="Sim.tla + CIR.tla / TLC -> path-wise replay with supplied normals; one-step moments on quadrature nodes",
+        technique="TLA+ scheme machines (one Step(z) per time step, exact coefficient/rational domains) checked by TLC against closed forms for every sequence of supplied normals; CIR moment machine (tower law) checked against the closed-form mean-reverting mean and variance; real generators replayed on exactly those normals / on Gauss-Hermite and Gauss-Laguerre nodes",
         category=MC, design_ref="DESIGN.md 3 C10, 4",
-        text="PARTIAL: decides the path-wise half of the property. Sim.tla models Brownian, geometric Brownian, Merton (with supplied jump counts), Vasicek (exact OU transition) and local-volatility Euler "
+        text="PARTIAL: decides the path-wise half of the property and the CIR/Heston variance moments. Sim.tla models Brownian, geometric Brownian, Merton (with supplied jump counts), Vasicek (exact OU transition) and local-volatility Euler "
              "schemes; TLC checks BrownianClosedForm, OUClosedForm, EulerMartingale, JumpFreeReduction for all normal sequences of the bounded model; the real generators are run on those normals "
              "(engine argument, or randn_like / Poisson.sample replaced for one call) and whole paths compared; Merton and Kou at zero intensity must equal the diffusion on the same normals. "
-             "Distributional statements (moments, correlations, rough Bergomi, CIR/Heston quadratic-exponential scheme) are NOT decided.",
-        note="Trusted: TLC, torch; public torch functions replaced for one call. Everything in C10 that needs a sample estimate is outside this check and listed in DESIGN.md 4."),
+             "CIR.tla: exact rational conditional moments m(v), s2(v), psi and the branch of the quadratic-exponential scheme with exp(-kappa dt) as a rational parameter; TLC checks that propagating them by the tower law gives the "
+             "closed-form mean-reverting mean and variance from any starting value (MeanClosedForm, VarClosedForm) and that the exponential mixture reproduces m and psi m^2 (ExpBranchMatches); one real step of generate_cir and "
+             "generate_heston from each lattice value is run on quadrature nodes (3 Gauss-Hermite normals: V' is quadratic in Z; 2 Gauss-Laguerre nodes mapped to uniforms; probes around the atom at zero) and its exact "
+             "conditional mean and variance compared with m and s2 at 1e-9. Sample-estimate statements (price means, Heston correlation, rough-Bergomi forward variance, jump-model log-variance) are NOT decided.",
+        note="Trusted: TLC, torch; public torch functions (randn_like, rand_like, Poisson.sample) replaced for one call. dt is handed to the CIR generators as a float64 tensor because Python-float parameters pass through float32 inside them."),
     "C11": dict(
         engine="Market.tla / TLC -> replay on real primaries and generators",
         technique="TLA+ buffer-replacement machine and contract table of the eight primary kinds explored by TLC; histories replayed on real instruments with projection after every simulate(); generator contract sweep",
